@@ -11,7 +11,7 @@ tools/alt_sync.sh || exit 2
 git -C /tmp/ev/repo apply "/verif/seeded/$S/patch.diff" || exit 2
 res=""
 for chk in "$@"; do
-  out="$(cd /tmp/ev/verif && VERIF_REPO=/tmp/ev/repo ./run.sh "$chk" quick 2>/dev/null)"; rc=$?
+  out="$(cd /tmp/ev/verif && VERIF_HANG_S=40 VERIF_REPO=/tmp/ev/repo ./run.sh "$chk" quick 2>/dev/null)"; rc=$?
   if [ $rc -eq 1 ] && echo "$out" | grep -q "^VIOLATION property=$chk "; then r=detected; elif [ $rc -eq 0 ]; then r=missed; else r="error(rc=$rc)"; fi
   res="$res $chk=$r"
 done
@@ -22,7 +22,7 @@ p,res=sys.argv[1:3]
 m=json.load(open(p))
 qc=m.setdefault("quick_checks",{})
 for kv in res.split():
-    k,v=kv.split('='); qc[k]=v
+    k,v=kv.split('=',1); qc[k]=v
 json.dump(m,open(p,'w'),indent=1)
 PY
 echo "$S:$res"
